@@ -21,6 +21,7 @@ DOC = {
         'C01.R4': 'hashing task: inode groups keyed by file_info.id; FileId equality is the derived one over exactly {device, inode}',
         'C01.R5': 'hash_transformed: the length bound handed to stream_hash has no data dependence on chunk.len (the raw file length)',
         'C01.R6': 'fields of FileInfo written through the &mut handed to hash_fn and read by the group key are assigned on every HashedFileInfo the task sends',
+        'C01.R9': 'the report file (-o FILE) is created, empty, before the scan starts (main.rs: check_can_create_output_file), so the scan must not take it for one of the input files: scan_files filters out the path that equals config.output',
         'C01.R8': 'the suffix stage, which combines hashes with XOR, never hashes the chunk the prefix stage already hashed: its pre-filter excludes files not longer than the prefix length (a comparison of file_len with a value that group_files derives from the same prefix_len it hands to the prefix and contents stages); otherwise whole-file ^ whole-file = 0 merges all files of one length',
         'C01.R7': 'file_hash opens at chunk.pos and bounds by chunk.len; stream_hash feeds every buffer to the hasher; the read loop exits only at the bound, on read()==0, or with Err',
     },
@@ -39,6 +40,7 @@ def run(ctx):
     r6(ctx, 'C01.R6')
     r7(ctx)
     r8(ctx)
+    r9(ctx)
     from .common import run_mandatory
     run_mandatory(ctx, 'C01')
 
@@ -562,3 +564,32 @@ def r8(ctx, rule='C01.R8'):
     ctx.check(ok, rule, 'group::group_by_suffix|skips-fully-hashed', sb.where(), 'suffix stage pre-filter: file_len > prefix_len (the value group_files hands to all three stages)',
               why + ': for a file that the prefix stage hashed completely and whose suffix chunk is again the whole file (--max-suffix-size >= length), old_hash ^ new_hash = 0, '
               'so every file of that length lands in one group and the contents stage (file_len >= prefix_len only) never separates them')
+
+
+def r9(ctx, rule='C01.R9'):
+    lib, bn = ctx.lib, ctx.bin
+    sc = ctx.need_body(rule, 'group::scan_files')
+    if sc is None:
+        return
+    rg = bn.body('run_group') if bn else None
+    created_before = False
+    if rg is not None:
+        cc = rg.calls(r'check_can_create_output_file$')
+        gf = rg.calls(r'group_files$')
+        created_before = bool(cc and gf) and rg.dominates(cc[0].bb, gf[0].bb)
+    if not created_before:
+        ctx.ok(rule, 'group::scan_files|output-not-scanned', sc.where(), 'the report file is not created before the scan')
+        return
+    bodies = [sc] + [lib.body(c) for c in lib.closures_of(sc.path)]
+    ok = False
+    for x in bodies:
+        for c in x.calls(r'PartialEq.*>::(eq|ne)$|PartialEq::(eq|ne)$'):
+            names = set()
+            for a in c.args:
+                sl = backslice(x, [a])
+                names |= set(sl.field_names()) | {n for _, n in sl.upvars}
+            if 'output' in names and ('path' in names or 'info' in names):
+                ok = True
+    ctx.check(ok, rule, 'group::scan_files|output-not-scanned', sc.where(), 'scan_files drops the path equal to config.output',
+              'run_group creates (truncates) the report file before group_files scans the tree, and nothing keeps the scan from picking it up: with `cd d; fclones group . --min 0 -o report.txt` the '
+              'report lists report.txt itself as a 0-byte duplicate of the empty files, while it is hundreds of bytes long')
